@@ -156,7 +156,9 @@ func (w *c19World) justify(y *c19Server, host string, authz []string, now time.T
 	}
 	cands := c19Candidates(authz...)
 	for c := range cands {
-		if s := w.tokBy[c]; s != nil && w.servers[s.srv].secretID == y.secretID && s.client.id == p {
+		// (a token is bound to the hostname it was issued for - its signed fields carry it -: "any alteration of the ...
+		// hostname ... is rejected" covers a token presented under another hostname the server also answers for)
+		if s := w.tokBy[c]; s != nil && w.servers[s.srv].secretID == y.secretID && s.client.id == p && c19Hosts[s.host] == host {
 			// created at s.created; unexpired = not after created + TokenTTL (the boundary instant is accepted either way)
 			if !now.After(s.created.Add(y.ttl)) {
 				return true, "token " + s.name()
